@@ -377,7 +377,14 @@ def both(run, requests, label, profile="release", isolate=False, canon=None, tim
         run.correspond(requests, impl, model, canon, label)
         # only when the straight pass agrees everywhere is a difference in the reordered pass attributable to the history
         if reorder and len(run.corr_disagreements) == n0 and len(requests) > 1:
-            reordered_pass(run, exe, requests, model, canon, label, isolate, timeout)
+            # on the OTHER build profile: the overflow-checked debug build when the straight pass ran the release build (and vice
+            # versa), so that a profile-specific panic or wrap-around on ordinary inputs is seen by every property's check
+            other = "debug" if profile == "release" else "release"
+            try:
+                exe2 = harness(run, other)
+            except Abort:
+                exe2 = exe
+            reordered_pass(run, exe2, requests, model, canon, label + f" [{other} build]", isolate, timeout)
     return impl, model
 
 
